@@ -356,6 +356,18 @@ func (e *TypeEnv) StructDecls() string {
 
 func (e *TypeEnv) Decls() string {
 	var b strings.Builder
+	for _, g := range e.globalOrd {
+		fmt.Fprintf(&b, "(declare-const %s %s)\n", g, e.globals[g])
+	}
+	for _, d := range e.extraDecl {
+		b.WriteString(d)
+		b.WriteByte('\n')
+	}
+	return b.String()
+}
+
+func (e *TypeEnv) LitDecls() string {
+	var b strings.Builder
 	// string literals: distinct constants with known lengths
 	for _, s := range e.litOrd {
 		sym := e.lits[s]
@@ -368,13 +380,6 @@ func (e *TypeEnv) Decls() string {
 			b.WriteString(" " + e.lits[s])
 		}
 		b.WriteString("))\n")
-	}
-	for _, g := range e.globalOrd {
-		fmt.Fprintf(&b, "(declare-const %s %s)\n", g, e.globals[g])
-	}
-	for _, d := range e.extraDecl {
-		b.WriteString(d)
-		b.WriteByte('\n')
 	}
 	return b.String()
 }
